@@ -298,7 +298,7 @@ func runProperty(id, tier string, seed int) int {
 			"stats":              stats,
 			"notes":              notes,
 			"checker_cmd":        cmd,
-			"trusted_base":       append([]string{"go/types, go/cfg, go/ssa (golang.org/x/tools v0.29.0)", "Go memory model and sync/atomic semantics"}, p.trusted...),
+			"trusted_base":       append([]string{"go/types, go/cfg, go/ssa (golang.org/x/tools v0.29.0)", "Go memory model and sync/atomic semantics", "the loader's meaning-preserving normalisations of the syntax tree (var x = e as x := e; pinned form of private functions whose form, name or parameter list changed; loops over fixed tables written out), each followed by a full type-check and listed under notes when applied"}, p.trusted...),
 			"exhaustive":         true,
 			"exhaustive_meaning": "every construct matched by the rules in the current source tree is an obligation; none is sampled",
 		},
